@@ -343,6 +343,24 @@ func cmdCheck(args []string) {
 			cleanFn[ce.Func] = false
 		}
 	}
+	// clause-level cleanliness: every instance (#n) of the obligation's base id was claimed at baseline; a new instance
+	// of such a clause (e.g. the same postcondition at a new return statement) that the solver refutes is a violation
+	baseOf := func(id string) string {
+		if i := strings.LastIndex(id, "#"); i >= 0 {
+			return id[:i]
+		}
+		return id
+	}
+	cleanBase := map[string]bool{}
+	for id, ce := range baseline {
+		b := baseOf(id)
+		if _, ok := cleanBase[b]; !ok {
+			cleanBase[b] = true
+		}
+		if !ce.Claimed {
+			cleanBase[b] = false
+		}
+	}
 	knownBy := map[string]*KnownFinding{}
 	for _, k := range known {
 		if k.Property == prop && k.Obligation != "" {
@@ -386,7 +404,7 @@ func cmdCheck(args []string) {
 		case claimed:
 			nClaimed++
 			violations = append(violations, o)
-		case isNew && cleanFn[o.Func] && o.Result == "sat":
+		case isNew && (cleanFn[o.Func] || cleanBase[baseOf(o.ID)]) && o.Result == "sat":
 			nClaimed++
 			violations = append(violations, o)
 		default:
